@@ -1,7 +1,7 @@
 """C19 - active_children() tracks exactly the live workers."""
 import ast
 
-from ..astutil import dotted, calls_in, last_attr, receiver, norm, is_name, walk_local, loc, parent_map, short
+from ..astutil import is_self_attr, dotted, calls_in, last_attr, receiver, norm, is_name, walk_local, loc, parent_map, short
 from ..cfg import is_flow
 
 EXPLANATION = (
@@ -226,6 +226,17 @@ def run(ctx):
         ctx.check('R3', 'registration is dominated by the completed _start()', ok, 'Worker.__init__', 'register-before-start',
                   'the worker is registered before (or without) a successful _start(): a failed construction leaves a phantom entry',
                   where=loc(init_f, rc))
+        # restart() re-initialises a worker that is usually still in the registry, and _start() can fail (a refused connection, a thread or process that
+        # cannot be created): the flags every is_alive() reads first - is_alive() is what the pruning calls on every registered worker - are assigned on
+        # every path to _start(), so that a failed start leaves a worker the pruning sees as dead instead of one whose is_alive() raises for ever
+        start_eval = [n for n in g.nodes if n.stmt is not None and n.part == 'eval' and any(last_attr(c) == '_start' for c in n.calls())] or start_nodes
+        dom_all = g.dominators()
+        for flag in ('_started', '_dead'):
+            st_ids = {n.id for n in g.nodes if n.stmt is not None and n.part in (None, 'store') and isinstance(n.stmt, ast.Assign) and any(is_self_attr(t, flag) for t in n.stmt.targets)}
+            ok = all(dom_all.get(n.id, set()) & st_ids for n in start_eval)
+            ctx.check('R3', f'Worker.__init__: self.{flag} is assigned on every path to _start()', ok, 'Worker.__init__', f'liveness-flag-unset-at-start:{flag}',
+                      f'self.{flag} is not assigned before _start() runs: when _start() fails inside restart() - the object stays in the registry - is_alive() raises AttributeError, '
+                      'so every later active_children() / autoclose_active_children() raises and nothing is pruned or closed any more', where=loc(init_f, start_eval[0].stmt))
         # guard: not self._dead
         ipm = parent_map(init_f.node)
         cur = rc
